@@ -285,13 +285,17 @@ func modelTokens(n *stores.Node, next func() string) string {
 		return fmt.Sprintf("proxy %d %s %s", n.Max, o, c)
 	}
 	name := map[string]string{"overlay": "overlay", "shard": "shard2", "replica": "replica2", "cond": "cond2"}[n.Kind]
-	a := modelTokens(n.Kids[0], next)
-	b := modelTokens(n.Kids[1], next)
-	return name + " " + a + " " + b
+	if len(n.Kids) != 2 { // shard / replica over 3 or 4 sub-stores (stores.Node.ModelToken)
+		name = fmt.Sprintf("%sN %d", n.Kind, len(n.Kids))
+	}
+	for _, k := range n.Kids {
+		name += " " + modelTokens(k, next)
+	}
+	return name
 }
 
 func realTokens(n *stores.Node, next func() string) string {
-	k := n.Kind
+	k := c01.KindToken(n)
 	if n.Max != 0 {
 		k += ":" + strconv.Itoa(n.Max)
 	}
